@@ -33,9 +33,12 @@ def dispatch_table(eng):
     fi = eng.prog.func("distribution.get_distribution")
     table = []
     param = fi.params[0]
+    cfg_ = eng.flow(fi).cfg
     for st in fi.node.body:
+        if isinstance(st, ast.Assign) and len(st.targets) == 1 and isinstance(st.targets[0], ast.Name) and isinstance(st.value, (ast.Compare, ast.BoolOp)):
+            continue  # a hoisted condition: seen through by test_of below
         if isinstance(st, ast.If):
-            t = st.test
+            t = cfg_.test_of(st)
             if (
                 isinstance(t, ast.Compare) and len(t.ops) == 1 and isinstance(t.ops[0], ast.In)
                 and isinstance(t.left, ast.Constant) and isinstance(t.left.value, str)
